@@ -307,10 +307,12 @@ class ResourceMap:
         Internal implementation is recursive, hence extremely deep
         nested resource maps are not ideal.
         """
-        # Set valid identifiers as slots
+        # Set valid identifiers as slots (but names like ``__x``, which
+        # are mangled when they appear in a class body)
         slots_resources = tuple(filter(
-            lambda x: x.isidentifier(), chain(self.handles.keys(),
-                                              self.maps.keys())))
+            lambda x: x.isidentifier() and not (
+                x.startswith('__') and not x.endswith('__')),
+            chain(self.handles.keys(), self.maps.keys())))
 
         # Don't add a dict if all the resources can be encoded into
         # slots
